@@ -58,6 +58,9 @@ type Store struct {
 	PermuteList bool
 	// NodeOrder decides the order of LoadByNodeId results; nil = sorted by id.
 	NodeOrder func(ids []string) []string
+	// EmptyOnMiss: LoadByNodeId answers "no records under this node ID" with an empty set and a nil error
+	// (what a SQL-backed implementation naturally does) instead of ErrNotFound.
+	EmptyOnMiss bool
 
 	// secret scanning (C12 invariant)
 	Secrets  []Secret
@@ -249,6 +252,10 @@ func (n *NL) LoadByNodeId(ctx context.Context, m nodeenrollment.MessageWithNodeI
 		}
 	}
 	if len(match) == 0 {
+		if s.EmptyOnMiss {
+			set.Nodes = nil
+			return nil
+		}
 		return nodeenrollment.ErrNotFound
 	}
 	if s.NodeOrder != nil {
